@@ -42,6 +42,42 @@ def _features(p, d):
     return f
 
 
+SEM_BITS = 6000
+
+
+def _value_bits(p):
+    """Upper estimate of the size (bits of numerator + denominator) of the values the semantic test computes
+    for a program under GraphSem.I0 / I1."""
+    vals = []
+    worst = 0
+
+    def ab(a):
+        if a[0] == 'v':
+            row = vals[a[1]] if a[1] < len(vals) else 16
+            return row
+        return 16
+
+    for i in p['ins']:
+        k = i[0]
+        if k == 'U':
+            b = 2 * sum(ab(a) for a in i[3]) + 8 * len(i[3]) + 32
+        elif k == 'un':
+            b = ab(i[2]) + 2 if i[1] == 'neg' else 2 * ab(i[2]) + 16
+        elif k == 'bin':
+            b = ab(i[2]) + ab(i[3]) + 2 if i[1] in ('add', 'sub', 'mul', 'truediv') else max(ab(i[2]) + ab(i[3]), 2 * ab(i[3])) + 24
+        elif k == 'madd':
+            b = ab(i[1]) + ab(i[2]) + ab(i[3]) + 4
+        elif k == 'sum':
+            b = sum(ab(a) for a in i[1]) + 4
+        elif k in ('sum3', 'sum4'):
+            b = sum(ab(a) for a in i[1:]) + 4
+        else:
+            b = 0
+        vals.append(b)
+        worst = max(worst, b)
+    return worst
+
+
 def correspond(ctx):
     c = Corr()
     rc, out = cc.ensure_models(MODEL_TARGETS)
@@ -65,7 +101,14 @@ def correspond(ctx):
     body = 'Eval vm_compute in bad_idx (fun c => result_matches (compile_flag T dce_strict dce_guard sub_guard (fst c)) (snd c)) cases.'
     bad, errs = fw.check_shards(ctx, 'c01', hdr, items, body, shard=60)
     body2 = 'Eval vm_compute in bad_idx (fun c => sem_test T dce_strict dce_guard sub_guard (fst c)) cases.'
-    bad2, errs2 = fw.check_shards(ctx, 'c01sem', hdr, items, body2, shard=60)
+    # the executable semantic test computes exact rationals under two irregular interpretations (squares,
+    # products): nested operator chains make the numerators grow doubly exponentially, so it is run on the
+    # programs whose estimated value size stays small (the theorem compile_preserves_meaning covers all)
+    sem_idx = [i for i, pr in enumerate(cases) if _value_bits(pr) <= SEM_BITS]
+    c.count('sem-test-run', len(sem_idx))
+    c.count('sem-test-skipped-large-values', len(cases) - len(sem_idx))
+    bad2_local, errs2 = fw.check_shards(ctx, 'c01sem', hdr, [items[i] for i in sem_idx], body2, shard=60)
+    bad2 = [sem_idx[j] for j in bad2_local]
     for e in (errs + errs2)[:3]:
         c.failures.append(Failure('correspondence', 'coq evaluation of the graph model failed: ' + e))
     for p, d in zip(cases, out):
